@@ -85,7 +85,64 @@ def _docs():
     return d
 
 
-DOCS = _docs()
+class _Docs(dict):
+    """the fixed documents plus, on demand, generated ones named X|<map file>|<node path>|<repeat>: the conformant
+    document of that map that contains the node <repeat> times (built by the independent generator: no pyx12 code runs)"""
+
+    def __missing__(self, name):
+        from mc import corpus
+        kind, fname, path, k = name.split('|')
+        entry = [e for e in corpus.one_entry_per_map() if e[4] == fname][0]
+        plan = {'include': {path}}
+        if int(k) > 1:
+            plan['repeat'] = {path: int(k)}
+        d = corpus.build_ok(entry, plan)
+        if d is None:
+            raise KeyError(name)
+        v = (d.text(eol='\n'), 'ST_LOOP', 'ST02', '0009')
+        self[name] = v
+        return v
+
+
+DOCS = _Docs(_docs())
+
+
+def cross_map_pairs(thorough):
+    """pairs of generated documents of DIFFERENT maps that meet in a node of the same name under a parent of the same name
+    (which is all that map-node equality and hashing look at) but with different repeat limits: A enters the node once,
+    B repeats it one more often than A's map allows (legal in B's map).  Quick: loops; thorough: loops and segments."""
+    import collections
+    from mc import corpus, grammar as G
+    keys = collections.OrderedDict()
+    for e in corpus.one_entry_per_map():
+        try:
+            root = G.load(e[4])
+        except Exception:
+            continue
+        for n in G.walk(root):
+            if n.kind in ('loop', 'seg') and n.path.startswith('/ISA_LOOP/GS_LOOP/ST_LOOP/') and n.usage != 'N' and n.id not in ('ST', 'SE'):
+                if n.kind == 'seg' and not thorough:
+                    continue
+                k = (n.kind, n.id, n.parent.id if n.parent is not None else None)
+                keys.setdefault(k, collections.OrderedDict()).setdefault(G.maxrep(n), (e[4], n.path))
+    out = []
+    skipped = 0
+    for k, lim in keys.items():
+        if len(lim) < 2:
+            continue
+        ls = sorted(lim)
+        small, big = ls[0], ls[1]
+        if small + 1 > min(big, 60):
+            continue
+        a = 'X|%s|%s|1' % lim[small]
+        b = 'X|%s|%s|%d' % (lim[big] + (small + 1,))
+        try:
+            DOCS[a]; DOCS[b]
+        except KeyError:
+            skipped += 1
+            continue
+        out.append((a, b))
+    return out, skipped
 DOC_ORDER = ['837p', '837p_bad', '834_5010', '835', '999', '278', 'multi_isa', '834_delims']
 OPNAME = {'v': 'validate', 'c': 'context', 'x': 'xml2x12', 'V': 'validate[charset=B,exclude=states]', 'C': 'context[charset=B,exclude=states]'}
 VARIANT_DOCS = ('834_5010', '834_delims', '837p')       # documents with lower-case text / state codes, sensitive to the variant
@@ -507,9 +564,23 @@ def evaluate(case):
     return judge(seq, run_sequence(seq, base, xml))
 
 
+CROSS = None
+
+
+def cross(tier):
+    global CROSS
+    if CROSS is None or CROSS[0] != tier:
+        CROSS = (tier,) + cross_map_pairs(tier == 'thorough')
+    return CROSS[1], CROSS[2]
+
+
 def sequences(tier):
     full = alphabet_full()
     seqs = [(a,) for a in full] + [(a, b) for a in full for b in full]
+    for a, b in cross(tier)[0]:
+        seqs.append(((a, 'v', 'F'), (b, 'v', 'F')))
+        seqs.append(((b, 'v', 'F'), (a, 'v', 'F')))
+        seqs.append(((a, 'c', 'F'), (b, 'c', 'F')))
     n2 = len(seqs)
     n3 = 0
     if tier == 'thorough':
@@ -524,6 +595,10 @@ def run(R):
     global BASE, XML
     seqs, nfull, n2, n3 = sequences(R.tier)
     pairs = sorted(set((d, op) for d, op, _ in alphabet_full()))
+    xp, xskip = cross(R.tier)
+    pairs += sorted(set((d, op) for ab in xp for d in ab for op in ('v', 'c')))
+    R.total.counters['cross-map pairs'] = len(xp)
+    R.total.counters['cross-map pairs whose documents cannot be generated unambiguously'] = xskip
     BASE, XML, findings, nbase = baselines_for(pairs, core.NPROC)
     R.total.n += nbase
     R.total.counters['baseline_interpreters'] = nbase
@@ -536,6 +611,7 @@ def run(R):
     shards = [seqs[i::nshards] for i in range(nshards)]
     R.pmap(work, shards)
     R.bounds = {'documents': DOC_ORDER, 'events': nfull, 'event': 'document x {validate, context} x {fresh params, reused params, reused params+maps} + document x xml2x12 + 3 documents x {validate, context} under other parameter values (charset B, external set states excluded)',
+                'cross-map pairs': 'for every (node id, parent id) that occurs in several maps with different repeat limits (%s): document A of the stricter map enters the node once, document B of the other map repeats it once more than A allows; sequences [A,B], [B,A] validated and [A,B] read by the context reader' % ('loops and segments' if R.thorough else 'loops'),
                 'sequences_len<=2': n2, 'sequences_len3_over_24_event_subalphabet': n3,
                 'hash_seeds': list(SEEDS), 'baseline_interpreters': nbase,
                 'mutable_defaults_watched': sorted(DEFAULTS0)}
